@@ -497,21 +497,42 @@ func checkWrapper(p *Program, r *Report, sft, sf *ssa.Function) {
 		r.Unk(construct, p.Pos(sft.Pos()), "no wrapper closure found")
 		return
 	}
+	// the wrapper may be a method value (b.walk) of a small record holding end, includeEnd and the
+	// callback: the closure is then the synthetic bound-method wrapper; judge the method itself
+	boundRecv := false
+	if closure.Synthetic != "" && strings.Contains(closure.Synthetic, "bound method wrapper") {
+		if obj, ok := closure.Object().(*types.Func); ok {
+			if m := p.Prog.FuncValue(obj); m != nil && len(m.Blocks) > 0 {
+				closure = m
+				boundRecv = true
+			}
+		}
+	}
 	var userCalls []ssa.Value
 	for _, c := range callsIn(closure) {
 		cv := c.Common().Value
 		if ld, ok := deref(cv); ok {
 			cv = ld
 		}
+		isUser := false
 		if fv, ok := cv.(*ssa.FreeVar); ok {
 			t := fv.Type()
 			if pt, ok := t.Underlying().(*types.Pointer); ok {
 				t = pt.Elem()
 			}
 			if _, isSig := t.Underlying().(*types.Signature); isSig {
-				if v, ok := c.(ssa.Value); ok {
-					userCalls = append(userCalls, v)
-				}
+				isUser = true
+			}
+		}
+		// a function-typed field of the receiver record
+		if fa, ok := cv.(*ssa.FieldAddr); ok && boundRecv && len(closure.Params) > 0 && fa.X == ssa.Value(closure.Params[0]) {
+			if _, isSig := c.Common().Value.Type().Underlying().(*types.Signature); isSig {
+				isUser = true
+			}
+		}
+		if isUser {
+			if v, ok := c.(ssa.Value); ok {
+				userCalls = append(userCalls, v)
 			}
 		}
 	}
@@ -573,6 +594,9 @@ func checkWrapper(p *Program, r *Report, sft, sf *ssa.Function) {
 		}
 		if fv, ok := a.(*ssa.FreeVar); ok {
 			stateful = append(stateful, fmt.Sprintf("%s is written at %s", fv.Name(), p.Pos(st.Pos())))
+		}
+		if prm, ok := a.(*ssa.Parameter); ok && boundRecv && len(closure.Params) > 0 && prm == closure.Params[0] {
+			stateful = append(stateful, fmt.Sprintf("a field of the wrapper record is written at %s", p.Pos(st.Pos())))
 		}
 	})
 	r.Check(len(stateful) == 0, "(*trie.SlimTrie).ScanFromTo wrapper decides from the current key alone", p.Pos(closure.Pos()), "the wrapper writes no captured variable",
